@@ -213,6 +213,29 @@ def _row_of(t):
     return None
 
 
+def _never_none(t, depth=0):
+    if depth > 8:
+        return False
+    if t.op == "ite":
+        return _never_none(t.a[1], depth + 1) and _never_none(t.a[2], depth + 1)
+    if t.op in ("sub", "bin", "list", "tuple", "dict", "set", "comp", "cmp", "bool"):
+        return True
+    if t.op == "const":
+        return t.a[0] is not None
+    if t.op == "call":
+        n = callee_name(t.a[0])
+        return bool(n) and (n.startswith("np.") or n.startswith("builtins.") or n in ("util.intervals_to_boundaries",))
+    return False
+
+
+def assume(t, c, pol, memo=None):
+    """``t`` on a path where the condition ``c`` has the truth value ``pol``: conditionals on that very condition
+    collapse to the branch taken."""
+    if not any(x.op == "ite" and x.a[0] is c for x in walk(t)):
+        return t
+    return rebuild(t, lambda x: (assume(x.a[1] if pol else x.a[2], c, pol) if x.op == "ite" and x.a[0] is c else None), memo)
+
+
 def unop(op, x):
     if op == "not" and x.op == "un" and x.a[0] == "not":
         return x.a[1]
@@ -227,6 +250,15 @@ def cmp(op, l, r):
         op, l, r = "<", r, l
     elif op == ">=":
         op, l, r = "<=", r, l
+    if op in ("is", "isnot") and (is_const(l, None) or is_const(r, None)):
+        other = r if is_const(l, None) else l
+        if other.op == "ite":
+            c, x, y = other.a
+            # (None if c else X) is None  <=>  c, when X is the result of a computation that is never None
+            if is_const(x, None) and _never_none(y):
+                return c if op == "is" else unop("not", c)
+            if is_const(y, None) and _never_none(x):
+                return unop("not", c) if op == "is" else c
     if op in ("==", "!=", "is", "isnot") and r.id < l.id:
         l, r = r, l
     return mk("cmp", op, l, r)
@@ -291,10 +323,29 @@ def attr(base, name):
 
 
 def sub(base, idx):
-    if base.op == "tuple" and idx.op == "const" and isinstance(idx.a[0], float):
+    if base.op in ("tuple", "list") and idx.op == "const" and isinstance(idx.a[0], float) and not isinstance(idx.a[0], bool):
         k = int(idx.a[0])
-        if -len(base.a) <= k < len(base.a):
+        if base.op == "tuple" and -len(base.a) <= k < len(base.a):
             return base.a[k]
+        if base.op == "list" and 0 <= k < len(base.a):
+            return base.a[k]
+    # x[slice(a, b)] is x[a:b]; x[slice(None)] is x[:]
+    if idx.op == "call" and callee_name(idx.a[0]) == "builtins.slice" and 1 <= len(idx.a[1]) <= 3 and not idx.a[2]:
+        a_ = list(idx.a[1])
+        if len(a_) == 1:
+            a_ = [const(None), a_[0], const(None)]
+        elif len(a_) == 2:
+            a_ = a_ + [const(None)]
+        idx = mk("slice", *a_)
+        if all(x.op == "const" and x.a[0] is None for x in a_):
+            return base  # x[slice(None)]: everything
+    # a conditionally chosen index or a conditionally chosen tuple: the choice moves outwards
+    if idx.op == "ite" and all(z.op in ("slice", "call", "const") for z in (idx.a[1], idx.a[2])) and any(z.op == "slice" or (z.op == "call" and callee_name(z.a[0]) == "builtins.slice") for z in (idx.a[1], idx.a[2])):
+        return ite(idx.a[0], sub(base, idx.a[1]), sub(base, idx.a[2]))
+    if base.op == "ite" and idx.op == "const" and all(z.op in ("tuple", "list") for z in (base.a[1], base.a[2])):
+        return ite(base.a[0], sub(base.a[1], idx), sub(base.a[2], idx))
+    if idx.op == "slice" and all(x.op == "const" and x.a[0] is None for x in idx.a) and base.op in ("call", "param", "sub", "ite"):
+        return mk("sub", base, idx)
     return mk("sub", base, idx)
 
 
@@ -302,6 +353,8 @@ def proj(t, k):
     """k-th component of an unpacked value."""
     if t.op in ("tuple", "list") and 0 <= k < len(t.a):
         return t.a[k]
+    if t.op == "ite" and all(z.op in ("tuple", "list") for z in (t.a[1], t.a[2])):
+        return ite(t.a[0], proj(t.a[1], k), proj(t.a[2], k))
     return mk("sub", t, const(k))
 
 
